@@ -13,6 +13,7 @@ require (
 	golang.org/x/exp v0.0.0-20231110203233-9a3e6036ecaa // indirect
 	golang.org/x/mod v0.35.0 // indirect
 	golang.org/x/sync v0.20.0 // indirect
+	golang.org/x/tools/go/expect v0.1.1-deprecated // indirect
 )
 
 replace honnef.co/go/tools => /repo
